@@ -18,13 +18,13 @@ package perio
 //@   ensures [busy] old(pg.ticker != nil) ==> err != nil && pg.ticker == old(pg.ticker) && pg.stopCh == old(pg.stopCh)
 //@   modifies pg.ticker, pg.stopCh
 //@   owns pg.stopCh by pg when err == nil
-//@   serves C15 C07
+//@   serves C15 C10 C07
 
 //@ func (pg *PERIOGroup) stopTicker()
 //@   requires pg != nil && pg.stopCh != nil && !closed(pg.stopCh)
 //@   ensures [closed] closed(pg.stopCh)
 //@   modifies chanstate(pg.stopCh)
-//@   serves C15 C07
+//@   serves C15 C10 C07
 
 // One event at a time.  A-EVT (assumed of the producers, see the forwarder's CreateURR contract): an ADD event carries
 // a positive period.  What is proved per event kind:
@@ -37,7 +37,7 @@ package perio
 //@ func (s *Server) Serve(wg *sync.WaitGroup)
 //@   requires perioWF(s) && wg != nil && s.handler != nil && s.queryURR != nil
 //@   modifies *
-//@   serves C15 C07
+//@   serves C15 C10 C07
 //@   loop range(s.evtCh):
 //@     invariant [wf] perioWF(s) && s.handler != nil && s.queryURR != nil
 //@   loop range(s.perioList):
